@@ -55,6 +55,11 @@ def typestate_check(rep, repo, rule, configs, label=''):
             if key in seen:
                 continue
             seen.add(key)
+            if kind == 'early-exit':
+                rep.fail(rule, e.where, 'the remaining criteria are skipped only after a solve was seen not to be Optimal [%s]' % cfg,
+                         got='the criterion loop is left during %s although no non-Optimal status has been observed (a criterion that performs no solve ends the run)' % show(e.value[1][0]),
+                         want='return only when a status test found a non-Optimal status', construct='early exit without a failed solve in %s' % e.func.qualname, loc=e.loc)
+                continue
             if kind == 'unchecked':
                 msg = 'solve at %s is issued while the status of the previous solve at %s has not been checked' % (e.loc, last.loc if last is not None else '?')
             else:
